@@ -115,3 +115,9 @@ def register4(V):
     V('c08-p-update-literal', 'C08', 'preserve', [(F, "    cache[b'P'] = [stack.get()]\n", "    cache.update({b'P': [stack.get()]})\n")])
     V('c08-update-str-literal', 'C08', 'break', [(F, "    cache[b'P'] = [stack.get()]\n", "    cache.update({'P': [stack.get()]})\n")], 'C08.R1')
     V('c08-update-unknown-dict', 'C08', 'break', [(F, "    cache[b'P'] = [stack.get()]\n", "    cache.update(dict(P=[stack.get()]))\n")], 'C08.R1')
+
+
+def register5(V):
+    V('c01-inner-try-swallows', 'C01', 'break', [(F, "            run_tape(tape, stack, cache)\n            assert tape.has_terminated()\n", "            try:\n                run_tape(tape, stack, cache)\n            except ValueError:\n                tape.pointer = len(tape.data)\n            assert tape.has_terminated()\n")], 'C01.R2')
+    V('c09-check-template-no-plugins', 'C09', 'break', [(F, "        t = Tape(b'', plugins={**tape.plugins}, contracts={**tape.contracts})", "        t = Tape(b'', contracts={**tape.contracts})")], 'C09.R1', 'OP_CHECK_TEMPLATE')
+    V('c19-registry-attached-uncopied', 'C19', 'break', [(F, "    tape.contracts = {**_contracts, **contracts}\n", "    tape.contracts = _contracts\n    tape.contracts.update(contracts)\n")], 'C19.R2')
